@@ -1416,7 +1416,8 @@ func c16Member(c *Ctx, e zooEnv, path string, rt reflect.Type, name string, row 
 			violateKeyed16(c, Violation{What: "the call's result does not have the type the checker assumed", Key: "c16:membercall-type-differs", Input: cin,
 				Expect: "value of type " + fmt.Sprint(cv.ty), Got: fmt.Sprintf("%T", cv.out)})
 		}
-	} else if base.Kind() == reflect.Struct && callable && (methodFound || (fieldFound && exported)) {
+	} else if (base.Kind() == reflect.Struct || (base.Kind() == reflect.Interface && methodFound)) && callable && (methodFound || (fieldFound && exported)) {
+		// (a method of an interface-typed receiver is statically known too: it has no receiver parameter)
 		violateKeyed16(c, Violation{What: "callable exported member that Go resolves is rejected by the checker", Key: "c16:resolvable-method-rejected", Input: cin, Expect: "accepted", Got: cv.cerr})
 	}
 }
